@@ -1,6 +1,7 @@
 """C02 — projection data are one coherent array across access paths, layouts and files."""
 import os
 import vlib
+import gen_gate
 
 PROP = "C02"
 
@@ -13,6 +14,9 @@ def main(tier, replay):
                 tier = l.split("tier=")[1].split()[0]
     chk = vlib.Check(PROP, tier, level="proof")
     audit = vlib.lean_gate(chk, PROP)
+    # tie (T): ProjDataInMemory::get_index and ProjDataFromStream::get_offset are re-translated from the source and proved equal to
+    # the model's getIndex / offsetOf for every layout and bin (lean/StirVerif/Gen/Bridges.lean)
+    tie_t = gen_gate.gate(chk, kernels=gen_gate.PD_KERNELS)
     stats = vlib.run_differential(chk, PROP, "c02_projdata", tier)
     info = {}
     of = os.path.join(vlib.OUT, "c02_%s.impl.oracle" % tier)
@@ -45,6 +49,7 @@ def main(tier, replay):
         "(geometry incl. arc correction, every time frame, exam info, segment sequence, storage order, number format, byte order, data offset, "
         "scale factor, values).",
         extra=dict(input_histogram=info))
+    chk.coverage["tie_T_translator"] = tie_t
     chk.assumptions += ["values are small multiples of the scale factor (|k| <= 250 from the generators, <= 20000 after bulk arithmetic; non-negative for "
                         "unsigned short), so every on-disk type is exact; data that does not fit the on-disk type at the stream's scale factor "
                         "(find_scale_factor enlarging the scale, set_* then fail) is not exercised; float on-disk data has scale factor 1",
